@@ -266,14 +266,24 @@ func c07reuse(who string, settleMs int) string {
 		client.Session = &xmpp.Session{}
 		sender, asSender = client, client
 	}
-	panics := 0
+	panics, blocked := 0, 0
 	route := func(id string) {
-		defer func() {
-			if r := recover(); r != nil {
-				panics++
-			}
+		// the receive loop of a component routes synchronously: a route call that blocks stops packet processing
+		done := make(chan struct{})
+		go func() {
+			defer close(done)
+			defer func() {
+				if r := recover(); r != nil {
+					panics++
+				}
+			}()
+			xmpp.VerifRoute(router, asSender, &stanza.IQ{Attrs: stanza.Attrs{Type: "result", Id: id, From: "srv"}})
 		}()
-		xmpp.VerifRoute(router, asSender, &stanza.IQ{Attrs: stanza.Attrs{Type: "result", Id: id, From: "srv"}})
+		select {
+		case <-done:
+		case <-time.After(time.Second):
+			blocked++
+		}
 	}
 	mkreq := func() *stanza.IQ {
 		iq, _ := stanza.NewIQ(stanza.Attrs{Type: stanza.IQTypeGet, Id: "X", To: "srv"})
@@ -312,7 +322,7 @@ func c07reuse(who string, settleMs int) string {
 	time.Sleep(time.Duration(settleMs) * time.Millisecond)
 	route("X")
 	b := read(chB)
-	return fmt.Sprintf("a=%d b=%d ordinary=%d panics=%d", a, b, atomic.LoadInt64(&ordinary), panics)
+	return fmt.Sprintf("a=%d b=%d ordinary=%d panics=%d blocked=%d", a, b, atomic.LoadInt64(&ordinary), panics, blocked)
 }
 
 func indexOf(s, sub string) int {
